@@ -39,6 +39,8 @@ def cases(tier, seed):
         yield dict(spec=spec)
     for spec in families.inc2(tier):     # one node in two incompatibility constraints, derived partners
         yield dict(spec=spec)
+    for spec in families.inc3(tier):     # per-option removal influences on a shared derived node
+        yield dict(spec=spec)
     for spec in families.inc(tier):      # necessary derivers below an option with a nested choice
         yield dict(spec=spec)
     if tier != 'quick':
